@@ -16,7 +16,7 @@ WIRE = ['theories/Wire/Cbor.v', 'theories/Wire/CborFloat.v', 'theories/Wire/Cbor
 
 SPEC = {
     'prop_files': ['theories/Properties/C14.v'],
-    'coq_targets': ['theories/Properties/C14.vo', 'theories/C14/Corr.vo'],
+    'coq_targets': ['theories/Properties/C14.vo', 'theories/C14/Corr.vo', 'theories/C14/IllFormed.vo'],
     'closure_dirs': ['theories/C14'] + [w for w in WIRE if os.path.exists(os.path.join(vlib.COQ, w))],
     'harness': 'c14',
     'args': {
